@@ -3,7 +3,7 @@ import json
 
 from lib import framework as fw, mcharness as mc, qconv
 
-REQ = ['Model.MCRows', 'Model.MCStats', 'Proofs.MCRowsProofs']
+REQ = ['Model.MonteCarlo', 'Model.MCRows', 'Model.MCStats', 'Proofs.MCRowsProofs']
 TOL = '(1#1000000000)'
 STATS = ['minimum', 'maximum', 'median', 'average', 'mean', 'standard deviation']
 META = {
@@ -27,7 +27,8 @@ META = {
     'technique': 'Coq proof about an executable Gallina model + kernel-evaluated correspondence with the implementation',
     'rule': ('settings files from one PRNG (2-6 inputs over the five distributions, 1-4 outputs) on the HIP-RA-X base with 1/4/16 workers, '
              'one with a distribution that straddles a parameter bound (failing iterations), one GEOPHIRES run, two settings files with an '
-             'OUTPUT label that no report carries, settings with one / two short-valued outputs (output part of a row <= 10 characters); every one of '
+             'OUTPUT label that no report carries, a forced arrival at the lock while another work package is inside (pass phrases observed), two API '
+             'calls in one process onto the same output path, settings with one / two short-valued outputs (output part of a row <= 10 characters); every one of '
              'the ITERATIONS work packages must have been executed and rows = iterations whose own simulation succeeds; every row is re-simulated; a row is non-trivial when its sampled vector is new; '
              'evaluations = rows replayed + statistics compared + headers'),
     'trusted_base': ['Coq 8.16.1 kernel + vm_compute (no native_compute)',
@@ -61,6 +62,8 @@ def _q(x):
 
 def _inp(run, **extra):
     d = {'settings': run.settings, 'W': run.W, 'mode': run.mode, 'program': run.program}
+    if getattr(run, 'settings_first', None):
+        d['settings_first'] = run.settings_first
     if run.program != 'HIP_RA_X' or run.base != mc.hiprax_base():
         d['base'] = run.base
     return dict(d, **extra)
@@ -94,6 +97,27 @@ def analyse(ctx, run, bools, reports):
     bools.append((f'Nat.eqb (List.length (result_rows (fun t => nth t {flags} None) (seq 0 {len(run.tasks)}%nat))) {len(rows) + lock_lost}%nat',
                   lambda: ctx.violate('property', 'failure-local:rowcount', f'{len(rows)} rows for {len(run.ok_tasks)} iterations whose own simulation '
                                       f'succeeded ({len(run.tasks)} executed)', inp=_inp(run), expected=len(run.ok_tasks), observed=len(rows))))
+    # --- the lock: one pass phrase per work package (the model's pass = identity), and no entry while another is inside
+    passes = [t['lock_pass'] for t in run.tasks if t.get('lock_pass')]
+    if len(set(passes)) < len(passes):
+        ctx.violate('corr', 'append:shared-lock-pass', f'{len(passes)} work packages took the result-file lock under {len(set(passes))} pass phrase(s): '
+                    'pylocker grants the lock at once to a contender whose pass phrase is the stored one (C14_distinct_pass_excludes needs distinct ones)',
+                    inp=_inp(run), expected='a fresh pass phrase per work package', observed=sorted(set(passes))[:3])
+    if run.mode == 'lockoverlap':
+        roles = {t['role']: t for t in run.tasks}
+        seen = [roles[k].get('overlap') for k in 'AB' if k in roles]
+        if len(seen) == 2 and None not in seen:
+            inside = bool(seen[0] or seen[1])
+            if inside:
+                ctx.violate('property', 'append:no-mutual-exclusion', 'a work package was let into the critical section of the result file while another one '
+                            'was held inside it (its pass phrase verified in the lock file): appends are not serialised, rows can interleave',
+                            inp=_inp(run), expected='the second work package polls until the first has released',
+                            observed={'B acquired while A inside': seen, 'pass phrases distinct': len(set(passes)) == len(passes)})
+            bools.append((f'Bool.eqb (phase_eqb (phases (lrun_pass (fun t => t) true linit overlap_schedule) 1%nat) PIdle) {str(not inside).lower()}',
+                          lambda: ctx.violate('corr', 'lockmodel:overlap', 'whether the second work package gets in while the first is inside differs from the lock model',
+                                              inp=_inp(run), expected='stays outside (PIdle)', observed=seen)))
+        else:
+            ctx.note(f'forced overlap: could not be observed ({seen})')
     # --- every successful work package left one well-formed row, nothing else is in the row area
     found_all = None
     if any(t['trace'] for t in run.ok_tasks):
@@ -172,6 +196,12 @@ def analyse(ctx, run, bools, reports):
                 ctx.violate('property', 'rows:torn', 'lines that are neither rows nor statistics follow the rows', inp=_inp(run),
                             observed=rest[:300])
             js, txt = json.loads(run.json_text), mc.parse_stats_text(rest, outputs)
+            if run.api:      # the summary as the client API delivers it (MonteCarloResult.result['output']) is the one that is checked
+                if run.api[-1]['output'] != js:
+                    ctx.violate('property', 'summary:api-json-stale', "the JSON summary returned by get_monte_carlo_result() (result.result['output']) is "
+                                f'not the one of this run ({run.api[-1]["tasks"]} iterations; an earlier call in the same process wrote to the same path)',
+                                inp=_inp(run), expected=js, observed=run.api[-1]['output'])
+                js = run.api[-1]['output']
             for j, o in enumerate(outputs):
                 try:
                     col = [qconv.F(float(r['outs'][j])) for r in rows]
@@ -214,7 +244,7 @@ def specs(ctx):
                ('Reservoir Porosity', 'normal', [97, 3])]
     out = [dict(name='contended', W=16, st=mc.make_settings(rnd, 24 if q else 300)),
            dict(name='serial', W=1, st=mc.make_settings(rnd, 6 if q else 60)),
-           dict(name='failing', W=4, st=mc.make_settings(rnd, 20 if q else 200, inputs=failing, n_outputs=3)),
+           dict(name='failing', W=2, st=mc.make_settings(rnd, 20 if q else 200, inputs=failing, n_outputs=3)),
            dict(name='geophires', W=3, st=geo_st + f'ITERATIONS, {5 if q else 24}\n', program='GEOPHIRES', base=geo)]
     # a row longer than the buffer of the result-file object (st_blksize, 4096): 24 sampled inputs with 190-character names
     # that the simulator ignores (main() draws one histogram per input, so few long names rather than many short ones)
@@ -237,8 +267,9 @@ def correspondence(ctx, proofs_ok=True):
 def replay(ctx, data):
     inp = data['input']
     bools = []
-    run = mc.run_job(ctx, 'replay', inp['settings'], W=inp['W'], mode=inp.get('mode', 'pool'), program=inp.get('program', 'HIP_RA_X'),
-                     base=inp.get('base'))
+    first = inp.get('settings_first')
+    run = mc.run_job(ctx, 'replay', first or inp['settings'], W=inp['W'], mode=inp.get('mode', 'pool'), program=inp.get('program', 'HIP_RA_X'),
+                     base=inp.get('base'), settings2=inp['settings'] if first else None)
     judge(ctx, [run], bools, 120)
     for i in fw.kernel_bools(ctx, 'c14r', REQ, [b for b, _ in bools], shard=40, open_scope='string_scope'):
         bools[i][1]()
